@@ -41,11 +41,94 @@ type MetricEnv struct {
 	Metric    string    // configured float metric or hamming/jaccard
 	BitMetric string    // "" unless bits are compared
 	Threshold []float32 // per dimension, when bits are compared
+	PQ        *PQEnv    // non-nil once a product quantiser has been trained
+}
+
+// PQEnv is the persisted state of a trained product quantiser: the centroids
+// read back from the bucket (k-means starts from a random point, the outcome
+// is not predicted) and the stored centroid ids of every point.
+type PQEnv struct {
+	Sub, K, SubLen int
+	Inner          string            // metric applied per sub-vector: euclidean or dot
+	Centroids      []float32         // flat, (Sub * K * SubLen)
+	Codes          map[int][]byte    // uuid index -> centroid id per sub-vector
+	Raw            map[int][]float32 // uuid index -> persisted full vector
+}
+
+func (p *PQEnv) centroid(sub, c int) []float32 {
+	s := sub*p.K*p.SubLen + c*p.SubLen
+	return p.Centroids[s : s+p.SubLen]
+}
+
+func (p *PQEnv) inner(x, c []float32) float64 {
+	s := 0.0
+	for i := range x {
+		if p.Inner == models.DistanceDot {
+			s -= float64(x[i]) * float64(c[i])
+		} else {
+			d := float64(x[i]) - float64(c[i])
+			s += d * d
+		}
+	}
+	return s
+}
+
+// Distance is the asymmetric quantised distance between a query and a stored
+// point with the given centroid ids.
+func (p *PQEnv) Distance(x []float32, code []byte) float64 {
+	if len(code) != p.Sub {
+		return math.NaN()
+	}
+	s := 0.0
+	for i := 0; i < p.Sub; i++ {
+		if int(code[i]) >= p.K {
+			return math.NaN()
+		}
+		s += p.inner(x[i*p.SubLen:(i+1)*p.SubLen], p.centroid(i, int(code[i])))
+	}
+	return s
+}
+
+// CodeOK reports whether code names, for every sub-vector of y, a centroid
+// that is nearest to it (ties and float32 rounding either way).  Points present
+// at training time are labelled by k-means (euclidean), later points by the
+// index metric applied per sub-vector: either notion of "nearest" is accepted.
+func (p *PQEnv) CodeOK(y []float32, code []byte) (bool, string) {
+	if len(code) != p.Sub {
+		return false, fmt.Sprintf("%d centroid ids for %d sub-vectors", len(code), p.Sub)
+	}
+	euclid := &PQEnv{Sub: p.Sub, K: p.K, SubLen: p.SubLen, Inner: models.DistanceEuclidean, Centroids: p.Centroids}
+	for i := 0; i < p.Sub; i++ {
+		sub := y[i*p.SubLen : (i+1)*p.SubLen]
+		if int(code[i]) >= p.K {
+			return false, fmt.Sprintf("centroid id %d >= %d", code[i], p.K)
+		}
+		okAny := false
+		why := ""
+		for _, e := range []*PQEnv{p, euclid} {
+			got := e.inner(sub, e.centroid(i, int(code[i])))
+			nearest := true
+			for c := 0; c < p.K; c++ {
+				if d := e.inner(sub, e.centroid(i, c)); d < got && !Near(d, got) {
+					nearest = false
+					why = fmt.Sprintf("sub-vector %d %v is encoded as centroid %d %v (%s distance %g) but centroid %d %v is nearer (%g)", i, sub, code[i], e.centroid(i, int(code[i])), e.Inner, got, c, e.centroid(i, c), d)
+				}
+			}
+			okAny = okAny || nearest
+		}
+		if !okAny {
+			return false, why
+		}
+	}
+	return true, ""
 }
 
 // EnvFor derives the MetricEnv of a vector index from its parameters and the
 // persisted quantiser state in the bucket dump (nil dump = no learned state).
-func EnvFor(metric string, q *models.Quantizer, dim int, bucket map[string][]byte) (MetricEnv, error) {
+//
+// For a product quantiser pass the uuid-index -> node-id map of the dump as
+// well, so that the stored centroid ids can be attributed to points.
+func EnvFor(metric string, q *models.Quantizer, dim int, bucket map[string][]byte, nodeIds ...map[int]uint64) (MetricEnv, error) {
 	env := MetricEnv{Metric: metric}
 	if metric == models.DistanceHamming || metric == models.DistanceJaccard {
 		env.BitMetric = metric
@@ -67,6 +150,34 @@ func EnvFor(metric string, q *models.Quantizer, dim int, bucket map[string][]byt
 			env.Threshold = conversion.BytesToFloat32(append([]byte{}, b...))
 		}
 		return env, nil
+	case models.QuantizerProduct:
+		b, ok := bucket["_productQuantizerFlatCentroids"]
+		if !ok {
+			return env, nil // untrained: the configured metric on the full vectors
+		}
+		inner := env.Metric
+		if inner == models.DistanceCosine {
+			// cosine cannot be summed over sub-vectors: the trained quantiser
+			// uses squared euclidean distance per sub-vector (newProductQuantizer)
+			inner = models.DistanceEuclidean
+		}
+		pq := &PQEnv{Sub: q.Product.NumSubVectors, K: q.Product.NumCentroids, SubLen: dim / q.Product.NumSubVectors, Inner: inner, Centroids: conversion.BytesToFloat32(append([]byte{}, b...)), Codes: map[int][]byte{}, Raw: map[int][]float32{}}
+		if len(pq.Centroids) != pq.Sub*pq.K*pq.SubLen {
+			return env, fmt.Errorf("persisted centroids have %d floats, want %d", len(pq.Centroids), pq.Sub*pq.K*pq.SubLen)
+		}
+		if len(nodeIds) == 0 {
+			return env, fmt.Errorf("product quantiser reference needs the node ids")
+		}
+		for idx, nid := range nodeIds[0] {
+			if c, ok := bucket[string(conversion.NodeKey(nid, 'q'))]; ok {
+				pq.Codes[idx] = append([]byte{}, c...)
+			}
+			if v, ok := bucket[string(conversion.NodeKey(nid, 'v'))]; ok {
+				pq.Raw[idx] = conversion.BytesToFloat32(append([]byte{}, v...))
+			}
+		}
+		env.PQ = pq
+		return env, nil
 	}
 	return env, fmt.Errorf("reference for quantizer %s not implemented", q.Type)
 }
@@ -77,6 +188,42 @@ func constVec(n int, v float32) []float32 {
 		out[i] = v
 	}
 	return out
+}
+
+// RefDistanceOf is the index distance between a query and the stored point id
+// with (model) vector y: the quantised distance once a product quantiser is
+// trained (NaN if the point has no stored centroid ids), RefDistance otherwise.
+func RefDistanceOf(env MetricEnv, id int, x, y []float32) float64 {
+	if env.PQ != nil {
+		return env.PQ.Distance(x, env.PQ.Codes[id])
+	}
+	return RefDistance(env, x, y)
+}
+
+// PQCheck verifies the persisted product-quantiser encoding of every point
+// that carries the vector: centroid ids present and naming a nearest centroid.
+func PQCheck(o *Obs, tag string, env MetricEnv, m *Model, prop string) {
+	if env.PQ == nil {
+		return
+	}
+	for _, id := range m.SortedIds() {
+		v, ok := VecOf(m.Docs[id], prop)
+		if !ok {
+			continue
+		}
+		o.Checks++
+		if raw, ok := env.PQ.Raw[id]; !ok || fmt.Sprint(raw) != fmt.Sprint(v) {
+			o.Fail(tag+"-pq-persisted-vector-differs", "point %d was written with vector %v, the vector store holds %v", id, v, raw)
+		}
+		code, has := env.PQ.Codes[id]
+		if !has {
+			o.Fail(tag+"-pq-point-without-centroid-ids", "point %d (vector %v) has no stored centroid ids although the quantiser is trained", id, v)
+			continue
+		}
+		if ok, why := env.PQ.CodeOK(v, code); !ok {
+			o.Fail(tag+"-pq-code-not-nearest-centroid", "point %d vector %v code %v: %s", id, v, code, why)
+		}
+	}
 }
 
 // RefDistance is the definition of the index distance in float64.
@@ -156,7 +303,7 @@ func RankCheck(o *Obs, tag string, env MetricEnv, m *Model, prop string, query [
 		if filter != nil && !filter[id] {
 			continue
 		}
-		ref[id] = RefDistance(env, query, v)
+		ref[id] = RefDistanceOf(env, id, query, v)
 	}
 	if len(res) > limit {
 		o.Fail(tag+"-more-than-limit", "%s: %d results, limit %d", desc, len(res), limit)
